@@ -104,6 +104,32 @@ theorem decompose_eval (env : Env V) (t : List TCmd) (ps : List Expr) (vs : List
     exact sem_inst env _ _ hp c
   rw [decomposeWith, sem_orient, sem_orient, key]
 
+/-- **compilation by decomposition commutes with substitution** (syntactically): for every table of
+templates that mentions no measured parameter, every substitution that leaves the table's own holes
+and constants alone, every compiler (`dec` = its `decompositions`), every recursion depth and every
+circuit: decomposing the substituted circuit gives the substituted decomposition -/
+theorem compile_subst (tbl : List (String × List TCmd)) (dec : String → Bool) (σ : Subst)
+    (hc : closedTable tbl = true) (ha : ∀ n ∈ tableAtoms tbl, σ.free n = none) (fuel : Nat) (cs : List PCmd) :
+    expand tbl dec fuel (cs.map (PCmd.subst σ)) = (expand tbl dec fuel cs).map (PCmd.subst σ) :=
+  expand_subst tbl dec σ (tblOK_of tbl σ hc ha) fuel cs
+
+/-- **symbolic = substituted through `Compiler.decompose`**, for the table generated from `ops.py`:
+the commands the backend sees (class, subsystems, inverse flag, evaluated parameters) after
+recursively decomposing the program with the numbers substituted are those of the decomposed
+symbolic program evaluated where the atoms have these values — for every compiler, depth, circuit
+and every binding that does not use the reserved names `#…` of the table -/
+theorem compile_symbolic_eq_substituted (env : Env V) (dec : String → Bool) (bf : String → Option Rat)
+    (bm : Nat → Option Rat) (hb : ∀ n ∈ tableAtoms templateTable, bf n = none) (fuel : Nat) (cs : List PCmd) :
+    (expand templateTable dec fuel (cs.map (PCmd.subst (numSubst bf bm)))).map (PCmd.sem env) =
+      (expand templateTable dec fuel cs).map (PCmd.sem (env.override bf bm)) := by
+  have hc : closedTable templateTable = true := by decide +kernel
+  have ha : ∀ n ∈ tableAtoms templateTable, (numSubst bf bm).free n = none := fun n hn => by
+    simp [numSubst, hb n hn]
+  rw [compile_subst templateTable dec _ hc ha, List.map_map]
+  apply List.map_congr_left
+  intro c _
+  exact pcmd_sem_subst env _ _ (pulls_numSubst env bf bm) c
+
 /-- **merging is a homomorphism**: the first parameter of the merged gate evaluates to the sum of
 the evaluated first parameters (the second negated when the inverse flags differ) -/
 theorem merge_eval (env : Env V) (a b : Expr) (da db : Bool) :
@@ -274,6 +300,13 @@ example : classify "q10".toList = .meas 10 ∧ classify ['q', '1', '2', '3'] = .
     classify ['a', 'l', 'p', 'h', 'a'] = .free ∧ classify ['q', 'x'] = .bad := by decide +kernel
 -- every index below 300, whatever its number of digits
 example : ∀ m < 300, classify ('q' :: Nat.toDigits 10 m) = .meas m := by decide +kernel
+-- CZ(2·q10) | (3, 11) inverted, through a compiler that decomposes CZ and CX: depth 2, 6 primitive commands
+example : ((expand templateTable (fun c => c == "CZgate" || c == "CXgate") 3
+    [⟨"CZgate", [.mul (.num 2) (.meas 10)], [3, 11], true⟩]).map fun c => (c.cls, c.regs, c.dagger))
+    = [("Rgate", [11], true), ("BSgate", [3, 11], true), ("Sgate", [11], true), ("Sgate", [3], true),
+       ("BSgate", [3, 11], true), ("Rgate", [11], true)] := by decide +kernel
+example : tableAtoms templateTable ≠ [] ∧ (tableAtoms templateTable).all (fun n => n.toList.head? == some '#') = true := by
+  decide +kernel
 example : templateNames.all (fun n => (template n).isSome) = true ∧ templateNames.length = 10 := by decide +kernel
 example : (Param.arr2 [[.lit 1, .sym ex], [.lit 2, .lit 3]]).isSymbolic = true ∧
     (Param.arr2 [[.lit 1, .sym ex], [.sym (.meas 11), .lit 3]]).deps = [1, 11] := by decide
